@@ -279,6 +279,7 @@ class SciPyOptimizer(Optimizer):
         lin_coef: NDArray[np.float64] | None,
     ) -> NDArray[np.float64]:
         assert self._normalized_constraints is not None
+        self._reset_cache_at_new_point(variables)
         if self._normalized_constraints.constraints is None:
             constraints = []
             if self._config.nonlinear_constraints is not None:
@@ -298,6 +299,7 @@ class SciPyOptimizer(Optimizer):
         lin_coef: NDArray[np.float64] | None,
     ) -> NDArray[np.float64]:
         assert self._normalized_constraints is not None
+        self._reset_cache_at_new_point(variables)
         if self._normalized_constraints.gradients is None:
             gradients = []
             if self._config.nonlinear_constraints is not None:
@@ -406,16 +408,7 @@ class SciPyOptimizer(Optimizer):
         if self._method in _NO_GRADIENT:
             get_gradient = False
 
-        if (
-            self._cached_variables is None
-            or variables.shape != self._cached_variables.shape
-            or not np.allclose(variables, self._cached_variables)
-        ):
-            self._cached_variables = None
-            self._cached_function = None
-            self._cached_gradient = None
-            if self._normalized_constraints is not None:
-                self._normalized_constraints.reset()
+        self._reset_cache_at_new_point(variables)
 
         function = self._cached_function if get_function else None
         gradient = self._cached_gradient if get_gradient else None
@@ -425,8 +418,26 @@ class SciPyOptimizer(Optimizer):
 
         if compute_functions or compute_gradients:
             self._cached_variables = variables.copy()
-            compute_functions = compute_functions or self._config.optimizer.speculative
-            compute_gradients = compute_gradients or self._config.optimizer.speculative
+            # Speculative evaluation never makes a method that does not use
+            # gradients evaluate them, and never repeats a cached evaluation:
+            speculative = (
+                self._config.optimizer.speculative
+                and self._method not in _NO_GRADIENT
+            )
+            compute_functions = compute_functions or (
+                speculative and self._cached_function is None
+            )
+            compute_gradients = compute_gradients or (
+                speculative and self._cached_gradient is None
+            )
+            # With split evaluations, gradients are calculated from separately
+            # evaluated functions, make sure these are available:
+            if (
+                compute_gradients
+                and self._config.optimizer.split_evaluations
+                and self._cached_function is None
+            ):
+                compute_functions = True
             new_function, new_gradient = self._compute_functions_and_gradients(
                 variables,
                 compute_functions=compute_functions,
@@ -444,6 +455,18 @@ class SciPyOptimizer(Optimizer):
                     gradient = new_gradient
 
         return function, gradient
+
+    def _reset_cache_at_new_point(self, variables: NDArray[np.float64]) -> None:
+        if (
+            self._cached_variables is None
+            or variables.shape != self._cached_variables.shape
+            or not np.allclose(variables, self._cached_variables)
+        ):
+            self._cached_variables = None
+            self._cached_function = None
+            self._cached_gradient = None
+            if self._normalized_constraints is not None:
+                self._normalized_constraints.reset()
 
     def _compute_functions_and_gradients(
         self,
